@@ -488,7 +488,8 @@ pub fn run(ctx: &mut Ctx) {
     let max_pairs = ctx.param("max_pairs", 6);
     for _ in 0..ctx.count {
         let mut rng = ctx.rng.fork();
-        let (ops, stream): (Vec<XOp>, &str) = match rng.below(12) {
+        let (ops, stream): (Vec<XOp>, &str) = match rng.below(13) {
+            12 => (gen_sym4(&mut rng).into_iter().map(XOp::Base).collect(), "sym4"),
             11 => (crate::suites::eg::gen_wred(&mut rng).into_iter().map(XOp::Base).collect(), "wred"),
             10 => (gen_ground(&mut rng).into_iter().map(XOp::Base).collect(), "ground"),
             9 => (crate::suites::eg::gen_late_redundancy2(&mut rng).into_iter().map(XOp::Base).collect(), "latered2"),
@@ -502,6 +503,60 @@ pub fn run(ctx: &mut Ctx) {
         };
         ctx.emit(exec_expl(ops, stream, max_pairs));
     }
+}
+
+/// a four- or five-slot leaf whose symmetry group is generated by elements of order three and double transpositions (A4,
+/// S4, and what they generate on five slots): groups with non-involutive elements in the stabiliser of the lowest moved slot,
+/// where the two ways of composing a coset representative with the rest of a sifted permutation differ.  The tracked terms
+/// are many spellings of the leaf (alone and below `h`), so the connecting permutations of the explained pairs vary.
+#[cfg(feature = "explanations")]
+fn gen_sym4(rng: &mut crate::rng::Rng) -> Vec<Op> {
+    use crate::terms::CField as F;
+    let n = if rng.chance(1, 4) { 5 } else { 4 };
+    let v = if n == 4 { 9 } else { 20 };
+    let slots: Vec<u32> = vec![2, 4, 8, 12, 16][..n].to_vec();
+    let leaf = |p: &[usize]| ATerm { v, fields: p.iter().map(|i| F::Slot(slots[*i])).collect(), children: vec![] };
+    let un = |a: ATerm| ATerm { v: 13, fields: vec![F::App], children: vec![a] };
+    let id: Vec<usize> = (0..n).collect();
+    // generators: a 3-cycle on three random positions, a double transposition, sometimes a plain transposition
+    let mut gens: Vec<Vec<usize>> = Vec::new();
+    let mut pos: Vec<usize> = (0..n).collect();
+    rng.shuffle(&mut pos);
+    let mut c3 = id.clone();
+    c3[pos[0]] = id[pos[1]];
+    c3[pos[1]] = id[pos[2]];
+    c3[pos[2]] = id[pos[0]];
+    gens.push(c3);
+    rng.shuffle(&mut pos);
+    let mut dt = id.clone();
+    dt.swap(pos[0], pos[1]);
+    dt.swap(pos[2], pos[3]);
+    gens.push(dt);
+    if rng.chance(1, 3) {
+        rng.shuffle(&mut pos);
+        let mut t = id.clone();
+        t.swap(pos[0], pos[1]);
+        gens.push(t);
+    }
+    let mut terms: Vec<ATerm> = vec![leaf(&id)];
+    for g in &gens {
+        terms.push(leaf(g));
+    }
+    let ngens = gens.len();
+    for _ in 0..rng.range(3, 5) {
+        let mut p = id.clone();
+        rng.shuffle(&mut p);
+        terms.push(if rng.chance(1, 3) { un(leaf(&p)) } else { leaf(&p) });
+    }
+    if rng.chance(1, 2) {
+        terms.push(un(leaf(&id)));
+    }
+    let mut ops: Vec<Op> = terms.iter().cloned().map(Op::Add).collect();
+    for k in 1..=ngens {
+        ops.push(Op::Union(0, k));
+    }
+    ops.push(Op::Query);
+    ops
 }
 
 /// closed terms only (symbols, numbers and operators over them): their classes have no slots, so class ids are all that
